@@ -115,15 +115,19 @@ class Outcome:
         self.stmt = stmt
 
 
-def walk(stmts, facts, alg, model=None, rule="dispatch", construct="?"):
-    """Follow stmts under facts. Returns Outcome."""
+def walk(stmts, facts, alg, model=None, rule="dispatch", construct="?", on_assign=None, on_test=None):
+    """Follow stmts under facts. Returns Outcome.
+    on_test(test, facts, alg) may decide a test the facts do not (True/False, None = no opinion);
+    on_assign(stmt, facts, alg) may interpret an assignment (return True when handled)."""
     for s in stmts:
         if isinstance(s, ast.If):
-            try:
-                t = decide(s.test, facts, model)
-            except Unknown as e:
-                raise AnalysisError(rule, "construct=%s undecided test `%s` line %d" % (construct, e, s.lineno))
-            out = walk(s.body if t else s.orelse, facts, alg, model, rule, construct)
+            t = on_test(s.test, facts, alg) if on_test is not None else None
+            if t is None:
+                try:
+                    t = decide(s.test, facts, model)
+                except Unknown as e:
+                    raise AnalysisError(rule, "construct=%s undecided test `%s` line %d" % (construct, e, s.lineno))
+            out = walk(s.body if t else s.orelse, facts, alg, model, rule, construct, on_assign, on_test)
             if out.kind != "fall":
                 return out
             continue
@@ -131,6 +135,8 @@ def walk(stmts, facts, alg, model=None, rule="dispatch", construct="?"):
             return Outcome("return", s.value, alg, facts, s)
         if isinstance(s, ast.Raise):
             return Outcome("raise", s.exc, alg, facts, s)
+        if isinstance(s, (ast.Assign, ast.AugAssign)) and on_assign is not None and on_assign(s, facts, alg):
+            continue
         if isinstance(s, (ast.Assign, ast.AugAssign)):
             # string-valued key updates (self.units = other.units)
             if isinstance(s, ast.Assign) and len(s.targets) == 1:
@@ -176,7 +182,7 @@ def walk(stmts, facts, alg, model=None, rule="dispatch", construct="?"):
         if isinstance(s, ast.Pass):
             continue
         if isinstance(s, ast.Try):
-            out = walk(s.body, facts, alg, model, rule, construct)
+            out = walk(s.body, facts, alg, model, rule, construct, on_assign, on_test)
             if out.kind != "fall":
                 return out
             continue
